@@ -72,8 +72,8 @@ func (c *Ctx) rulesR5auto(a *coreAnchors) {
 	if a.emitEvents != nil && a.setActive != nil {
 		// negotiation region: blocks from which the setActiveStates call is still reachable
 		var writer ssa.Instruction
-		for _, s := range c.callsTo(a.emitEvents, a.setActive) {
-			writer = s.Instr
+		for _, s := range c.standInSites(a.emitEvents, funcKey(a.setActive)) {
+			writer = s
 		}
 		n := 0
 		if writer != nil {
@@ -1143,4 +1143,50 @@ func (c *Ctx) rulesR5getmach() {
 	if n < 2 {
 		c.undecided(fmt.Sprintf("C17.getmach: only %d Decode calls found in the GetMachine functions (expected >= 2)", n))
 	}
+}
+
+// innerSites: the call sites of the function named by spec in root or in the
+// private single-caller helpers root was split into.
+func (c *Ctx) innerSites(root *ssa.Function, spec string) []ssa.CallInstruction {
+	var out []ssa.CallInstruction
+	for _, hf := range c.hostedFns(root) {
+		out = append(out, c.sitesIn(hf, spec)...)
+	}
+	return out
+}
+
+// standIn: the instruction of root that stands for ins: ins itself when it is
+// in root (or one of its closures), otherwise the call site in root through
+// which the hosted helper containing ins is reached.
+func (c *Ctx) standIn(root *ssa.Function, ins ssa.Instruction) ssa.Instruction {
+	f := topFunc(ins.Parent())
+	if f == root {
+		return ins
+	}
+	cur := ins
+	for d := 0; d < 5; d++ {
+		g := topFunc(cur.Parent())
+		if g == root {
+			return cur
+		}
+		cs, vals := c.allCallersOf(g)
+		if len(cs) != 1 || len(vals) != 0 {
+			return nil
+		}
+		cur = cs[0].Instr
+	}
+	return nil
+}
+
+// standInSites: innerSites mapped to their stand-ins in root.
+func (c *Ctx) standInSites(root *ssa.Function, spec string) []ssa.Instruction {
+	var out []ssa.Instruction
+	seen := map[ssa.Instruction]bool{}
+	for _, s := range c.innerSites(root, spec) {
+		if si := c.standIn(root, s); si != nil && !seen[si] {
+			seen[si] = true
+			out = append(out, si)
+		}
+	}
+	return out
 }
